@@ -343,6 +343,7 @@ pub fn gen_hist(o: &Opts, r: &mut Rng, k: u64, tier: &str) -> Vec<String> {
     c.push("SHUT".into());
     c.push("READ".into());
     c.push("PARTS".into());
+    if o.bg >= 3 { c.push("BGTRACE".into()); }
     if o.bg < 2 {
         // with a free-running cleanup thread the NAMES depend on the schedule (which files the
         // collision check still sees); the stream and its partition do not
@@ -436,8 +437,13 @@ pub fn gen_c07(tier: &str, seed: u64) -> Vec<Vec<String>> {
     // directory must be what the synchronous cleanup leaves
     v.extend(gen_with(Opts { prop: "C07", size: true, age: true, force_rot: true, restarts: 1, cleanup: true, faults: false, ext: false, modes: false, max_ops: 40, namings: ALL, foreign: false, exist: false, bg: 1 }, tier, seed ^ 0xB6, 150, 3000));
     v.extend(gen_with(Opts { prop: "C07", size: true, age: true, force_rot: false, restarts: 1, cleanup: true, faults: false, ext: false, modes: false, max_ops: 40, namings: ALL, foreign: false, exist: false, bg: 2 }, tier, seed ^ 0xB7, 100, 3000));
-    v.extend(gen_with(Opts { prop: "C07", size: true, age: true, force_rot: false, restarts: 1, cleanup: true, faults: false, ext: false, modes: false, max_ops: 40, namings: ALL, foreign: false, exist: false, bg: 3 }, tier, seed ^ 0xB8, 100, 3000));
-    v.extend(gen_with(Opts { prop: "C07", size: true, age: true, force_rot: false, restarts: 1, cleanup: true, faults: false, ext: false, modes: false, max_ops: 40, namings: ALL, foreign: false, exist: false, bg: 4 }, tier, seed ^ 0xB9, 100, 3000));
+    v.extend(gen_with(Opts { prop: "C07", size: true, age: true, force_rot: false, restarts: 1, cleanup: true, faults: false, ext: false, modes: false, max_ops: 40, namings: ALL, foreign: false, exist: false, bg: 3 }, tier, seed ^ 0xB8, 60, 2000));
+    v.extend(gen_with(Opts { prop: "C07", size: true, age: true, force_rot: false, restarts: 1, cleanup: true, faults: false, ext: false, modes: false, max_ops: 40, namings: ALL, foreign: false, exist: false, bg: 4 }, tier, seed ^ 0xB9, 60, 2000));
+    // … without restarts: what the thread does is observed step by step and replayed on the `Bg` model
+    for (bg, x) in [(3u8, 0xBAu64), (4, 0xBB)] {
+        v.extend(gen_with(Opts { prop: "C07", size: true, age: true, force_rot: false, restarts: 0, cleanup: true, faults: false, ext: false, modes: false, max_ops: 40, namings: &["num", "ts", "num", "ts", "numd"], foreign: false, exist: false, bg }, tier, seed ^ x, 80, 2000)
+            .into_iter().map(|mut c| { c[0] = c[0].replacen("C07 b", "C07 t", 1); c }));
+    }
     v
 }
 fn gen_c07_sync(tier: &str, seed: u64) -> Vec<Vec<String>> {
